@@ -365,15 +365,16 @@ def op_check(ctx, opname, battery):
 
 # ---------------------------------------------------------------------------------------------------------------- native battery
 
-M_SCHEMA = ('entity Group; entity User in [Group] { level: Long, manager?: User, profile: { nick: String, home: Doc } }; entity Folder in [Folder]; '
-            'entity Doc in [Folder] { owner: User, public: Bool, readers: Set<User> }; '
+M_SCHEMA = ('entity Group; entity User in [Group] { level: Long, manager?: User, profile: { nick: String, home: Doc } }; entity Folder in [Folder] { up: Folder }; '
+            'entity Doc in [Folder] { owner: User, public: Bool, readers: Set<User>, folder: Folder }; '
             'action view, edit appliesTo { principal: [User], resource: [Doc], context: { n: Long, via: User } };')
 M_ENTS = [{'uid': {'type': 'User', 'id': 'alice'}, 'attrs': {'level': 3, 'manager': {'__entity': {'type': 'User', 'id': 'carol'}}, 'profile': {'nick': 'al', 'home': {'__entity': {'type': 'Doc', 'id': 'd2'}}}}, 'parents': [{'type': 'Group', 'id': 'g'}]},
           {'uid': {'type': 'User', 'id': 'bob'}, 'attrs': {'level': 1, 'profile': {'nick': 'bo', 'home': {'__entity': {'type': 'Doc', 'id': 'd1'}}}}, 'parents': []},
           {'uid': {'type': 'User', 'id': 'carol'}, 'attrs': {'level': 5, 'profile': {'nick': 'ca', 'home': {'__entity': {'type': 'Doc', 'id': 'd1'}}}}, 'parents': [{'type': 'Group', 'id': 'g'}]},
-          {'uid': {'type': 'Group', 'id': 'g'}, 'attrs': {}, 'parents': []}, {'uid': {'type': 'Folder', 'id': 'root'}, 'attrs': {}, 'parents': []}, {'uid': {'type': 'Folder', 'id': 'f'}, 'attrs': {}, 'parents': [{'type': 'Folder', 'id': 'root'}]},
-          {'uid': {'type': 'Doc', 'id': 'd1'}, 'attrs': {'owner': {'__entity': {'type': 'User', 'id': 'alice'}}, 'public': False, 'readers': [{'__entity': {'type': 'User', 'id': 'bob'}}]}, 'parents': [{'type': 'Folder', 'id': 'f'}]},
-          {'uid': {'type': 'Doc', 'id': 'd2'}, 'attrs': {'owner': {'__entity': {'type': 'User', 'id': 'bob'}}, 'public': True, 'readers': []}, 'parents': []}]
+          {'uid': {'type': 'Group', 'id': 'g'}, 'attrs': {}, 'parents': []}, {'uid': {'type': 'Folder', 'id': 'root'}, 'attrs': {'up': {'__entity': {'type': 'Folder', 'id': 'root'}}}, 'parents': []},
+          {'uid': {'type': 'Folder', 'id': 'f'}, 'attrs': {'up': {'__entity': {'type': 'Folder', 'id': 'z'}}}, 'parents': [{'type': 'Folder', 'id': 'root'}]}, {'uid': {'type': 'Folder', 'id': 'z'}, 'attrs': {'up': {'__entity': {'type': 'Folder', 'id': 'z'}}}, 'parents': []},
+          {'uid': {'type': 'Doc', 'id': 'd1'}, 'attrs': {'owner': {'__entity': {'type': 'User', 'id': 'alice'}}, 'public': False, 'readers': [{'__entity': {'type': 'User', 'id': 'bob'}}], 'folder': {'__entity': {'type': 'Folder', 'id': 'f'}}}, 'parents': [{'type': 'Folder', 'id': 'f'}]},
+          {'uid': {'type': 'Doc', 'id': 'd2'}, 'attrs': {'owner': {'__entity': {'type': 'User', 'id': 'bob'}}, 'public': True, 'readers': [], 'folder': {'__entity': {'type': 'Folder', 'id': 'root'}}}, 'parents': []}]
 M_POLICIES = ['permit(principal, action, resource) when { resource.owner == principal };', 'permit(principal in Group::"g", action, resource in Folder::"root");',
               'permit(principal, action, resource) when { resource.owner.level > 2 && principal.level < context.n };', 'forbid(principal, action, resource) unless { resource.public || resource.readers.contains(principal) };',
               'permit(principal, action, resource) when { principal has manager && principal.manager.level > 4 };', 'permit(principal, action, resource) when { principal.profile.home == resource };',
@@ -381,6 +382,9 @@ M_POLICIES = ['permit(principal, action, resource) when { resource.owner == prin
               'permit(principal, action, resource) when { [principal, resource.owner].contains(context.via) };', 'permit(principal, action, resource) when { {a: resource.owner, b: principal}.a.profile.nick like "a*" };',
               'permit(principal, action, resource) when { resource.readers.containsAny([principal, context.via]) };', 'permit(principal, action, resource) when { resource.readers.isEmpty() || principal.profile == resource.owner.profile };',
               'permit(principal == User::"alice", action == Action::"view", resource) when { User::"carol".level > principal.level };',
+              'permit(principal, action, resource) when { resource in resource.folder.up || resource in resource.folder };', 'permit(principal, action, resource) when { resource in resource.folder || resource in resource.folder.up };',
+              'permit(principal, action, resource) when { resource in [resource.folder.up, resource.folder] };', 'permit(principal, action, resource) when { resource in (if resource.public then resource.folder.up else resource.folder) };',
+              'permit(principal, action, resource) when { resource in resource.folder.up.up }; permit(principal, action, resource) when { resource in resource.folder.up };', 'forbid(principal, action, resource) when { resource in resource.folder.up.up || resource in resource.folder };',
               'permit(principal, action, resource) when { principal has manager };', 'forbid(principal, action, resource) unless { principal has manager || resource.owner has manager };']
 
 
@@ -422,8 +426,9 @@ def node_families(ctx):
 
 
 def families(ctx):
+    from . import c17_trie
     ops = ['empty_paths', 'union', 'from_root', 'get_or_has_attr', 'with_ancestors_required', 'full_type_required']
-    return node_families(ctx) + [(f'analysis result operation {o}', lambda o=o: op_check(ctx, o, battery)) for o in ops]
+    return node_families(ctx) + [(f'analysis result operation {o}', lambda o=o: op_check(ctx, o, battery)) for o in ops] + c17_trie.families(ctx, battery)
 
 
 def run(ctx):
@@ -434,9 +439,10 @@ def run(ctx):
                    'of its children as abstract tokens => expressions of any depth at the level of the calculus', f'native battery: {len(manifest_cases())} (policy set, request) cases over an 8-entity store: manifest, slice, authorization over the slice vs the full store']
     ctx.assumptions += ['the operations on analysis results (empty_paths, union, from_root, get_or_has_attr, with_ancestors_required, full_type_required, to_ancestor_access_trie, RootAccessTrie::union) carry the meaning stated in their stub tags: '
                         'requirements are sets of atoms, paths are terms compared modulo union / empty; the six methods of EntityManifestAnalysisResult are decided against that meaning in terms of RootAccessTrie::{union, add_wrapped_access_paths}, '
-                        'WrappedAccessPaths::{get_or_has_attr, full_type_required} and AccessPath::to_root_access_trie, whose own bodies (trie manipulation) are NOT decided',
+                        'WrappedAccessPaths::{get_or_has_attr, full_type_required} and AccessPath::to_root_access_trie, whose own bodies are NOT decided - except the recursive union of tries: AccessTrie::union_mut (children and ancestors tries of both sides merged, ancestor mark = either side), '
+                        'union_fields_mut and RootAccessTrie::union_mut (every key of either side survives; maps of <= 2 + <= 2 keys, 7 shapes, values opaque, HashMap entry API as a concrete-key model)',
                         'NOT decided: that the calculus is sufficient for evaluation (a paper argument, RFC 74), the typechecker that annotates the expressions, compute_entity_manifest (per request environment), the slicer / loader '
                         '(entity_manifest/slicing.rs, loader.rs), entity tags (rejected as unsupported by the analysis)']
     return ctx.finish('Solver-decided per-node calculus of the entity-manifest analysis (entity_manifest_from_expr executed from the MIR of cedar-policy-core built with the entity-manifest feature): at every node kind the manifest requires '
                       'everything every child requires plus what the node itself reads (attribute paths, full types of compared operands, ancestors for `in`), and the resulting access paths are those the node value can come from; '
-                      'entity tags are rejected. Plus a native battery comparing authorization over the manifest-sliced store with the full store.')
+                      'entity tags are rejected; the recursive union of access tries loses nothing (one node, and the two map-merging loops on small maps). Plus a native battery comparing authorization over the manifest-sliced store with the full store.')
